@@ -31,7 +31,8 @@ fn tick(c: &AtomicU64, t0: Instant) {
 /// The rip_verif hook points name the crash boundaries somebody thought of.  An effect ADDED to a write path later
 /// (an unlink before a rename, a second write, a truncate) has no hook point next to it.  So this binary also
 /// DEFINES the libc entry points std's file-system calls end in (open / open64 / openat64 with O_CREAT|O_TRUNC,
-/// write, writev, rename, unlink, unlinkat, mkdir, ftruncate64): std is linked statically into the binary, so the
+/// write, writev, pwrite64, rename, renameat, unlink, unlinkat, rmdir, mkdir, link, linkat, symlink, ftruncate64,
+/// truncate64; not copy_file_range / sendfile, which std reaches through weak symbols): std is linked statically into the binary, so the
 /// linker binds its calls to these definitions, which forward to the kernel through `syscall(2)`.  While a
 /// workload's capability call runs on the current thread (`arm`), every such effect on a path under the live store
 /// is a crash boundary: when at least one effect happened since the last snapshot (hook point or effect), the
@@ -183,6 +184,56 @@ mod fsx {
     pub unsafe extern "C" fn unlinkat(dirfd: c_int, path: *const c_char, flags: c_int) -> c_int {
         let under = armed() && boundary("fs.before.unlink", &at_path(dirfd, path));
         let r = libc::syscall(libc::SYS_unlinkat, dirfd, path, flags) as c_int;
+        done(under, r >= 0);
+        r
+    }
+    // entry points today's rip / std do not reach on this platform (kept so that code that starts using them is covered)
+    #[no_mangle]
+    pub unsafe extern "C" fn pwrite64(fd: c_int, buf: *const c_void, n: size_t, off: off_t) -> ssize_t {
+        let under = armed() && fd > 2 && boundary("fs.before.pwrite", &fd_path(fd));
+        let r = libc::syscall(libc::SYS_pwrite64, fd, buf, n, off) as ssize_t;
+        done(under, r > 0);
+        r
+    }
+    #[no_mangle]
+    pub unsafe extern "C" fn renameat(olddir: c_int, old: *const c_char, newdir: c_int, new: *const c_char) -> c_int {
+        let under = armed() && boundary("fs.before.rename", &at_path(newdir, new));
+        let r = libc::syscall(libc::SYS_renameat, olddir, old, newdir, new) as c_int;
+        done(under, r >= 0);
+        r
+    }
+    #[no_mangle]
+    pub unsafe extern "C" fn linkat(olddir: c_int, old: *const c_char, newdir: c_int, new: *const c_char, flags: c_int) -> c_int {
+        let under = armed() && boundary("fs.before.link", &at_path(newdir, new));
+        let r = libc::syscall(libc::SYS_linkat, olddir, old, newdir, new, flags) as c_int;
+        done(under, r >= 0);
+        r
+    }
+    #[no_mangle]
+    pub unsafe extern "C" fn link(old: *const c_char, new: *const c_char) -> c_int {
+        let under = armed() && boundary("fs.before.link", &cpath(new));
+        let r = libc::syscall(libc::SYS_link, old, new) as c_int;
+        done(under, r >= 0);
+        r
+    }
+    #[no_mangle]
+    pub unsafe extern "C" fn symlink(target: *const c_char, path: *const c_char) -> c_int {
+        let under = armed() && boundary("fs.before.symlink", &cpath(path));
+        let r = libc::syscall(libc::SYS_symlink, target, path) as c_int;
+        done(under, r >= 0);
+        r
+    }
+    #[no_mangle]
+    pub unsafe extern "C" fn rmdir(path: *const c_char) -> c_int {
+        let under = armed() && boundary("fs.before.rmdir", &cpath(path));
+        let r = libc::syscall(libc::SYS_rmdir, path) as c_int;
+        done(under, r >= 0);
+        r
+    }
+    #[no_mangle]
+    pub unsafe extern "C" fn truncate64(path: *const c_char, len: off_t) -> c_int {
+        let under = armed() && boundary("fs.before.truncate", &cpath(path));
+        let r = libc::syscall(libc::SYS_truncate, path, len) as c_int;
         done(under, r >= 0);
         r
     }
